@@ -337,6 +337,13 @@ static const halg_t halgs[HALG_COUNT] = {
 
 /* ------------------------------------------------------------------ helpers */
 static const int h_aligns_sub[] = { 0, 1, 3, 4, 8, 31, 63 };
+static const int h_aligns_3[] = { 0, 1, 31 };
+static const uint8_t h_poisons[2] = { 0x00, 0xA5 };	/* values written over the dead bytes of a context */
+#if H_LEVEL >= 2
+#	define H_BOTH	8	/* alignments (by list index) below this run with both poisons, the rest alternate */
+#else
+#	define H_BOTH	2
+#endif
 static int h_aligns_all[64];
 static uint64_t h_transitions = 0;	/* real update/final calls executed inside cases */
 
